@@ -15,7 +15,7 @@
    CostProofs.v proves erase (X_c ...) = X ...   and the quadratic bound. *)
 From Coq Require Import ZArith List Bool.
 From KB Require Import Sx.
-From C12 Require Import Generated Model.
+From C12 Require Import Model.
 Import ListNotations.
 Open Scope Z_scope.
 
